@@ -596,6 +596,9 @@ func (ev *evaluator) index(x *EIndex) Val {
 			v = c.load(ev.st, c.ptrOf(v))
 		}
 	}
+	if u, ok := v.typ.Underlying().(*types.Map); ok {
+		return ev.x.mapLookupVal(ev.st, v, ev.typed(ev.eval(x.I), u.Key()))
+	}
 	it := ev.toInt(i)
 	switch u := v.typ.Underlying().(type) {
 	case *types.Slice:
@@ -1080,6 +1083,24 @@ func (ev *evaluator) call(x *ECall) Val {
 			return Val{t: app("<", "Bool", ev.term(v), refConst(0)), typ: types.Typ[types.Bool]}
 		}
 		ev.fail("isfresh of %s", v.typ)
+	case "allocd":
+		// allocd(e): e was allocated during this call (in the callee's own verification: since its entry; at a call
+		// site: between the caller's allocation pointer before the call and the one after it)
+		v := ev.eval(x.Args[0])
+		var rt *T
+		switch v.typ.Underlying().(type) {
+		case *types.Slice:
+			rt = c.slRef(v.t)
+		case *types.Pointer, *types.Map:
+			rt = ev.term(v)
+		default:
+			ev.fail("allocd of %s", v.typ)
+		}
+		var lo0 *T = refConst(0)
+		if ev.old != nil {
+			lo0 = ev.old.lowRef()
+		}
+		return Val{t: mkAnd(app("<=", "Bool", ev.st.lowRef(), rt), app("<", "Bool", rt, lo0)), typ: types.Typ[types.Bool]}
 	case "sinceLoop":
 		// sinceLoop(s): the backing array of s was allocated after the enclosing loop was entered (or s is nil)
 		if !ev.inLoop {
@@ -1102,6 +1123,35 @@ func (ev *evaluator) call(x *ECall) Val {
 	case "sameArray":
 		a, b := ev.eval(x.Args[0]), ev.eval(x.Args[1])
 		return Val{t: mkAnd(mkEq(c.slRef(a.t), c.slRef(b.t)), mkEq(c.slOff(a.t), c.slOff(b.t))), typ: types.Typ[types.Bool]}
+	case "visited":
+		// visited(k): the map iteration of the enclosing range-over-map loop has already produced key k
+		var r *ssa.Range
+		if ev.frame != nil {
+			r = mapRangeOfLoop(ev.frame.curLoop)
+			if r == nil {
+				// outside a loop contract: the only map iteration of the function, if there is exactly one
+				n := 0
+				for _, li := range ev.frame.loops {
+					if rr := mapRangeOfLoop(li); rr != nil {
+						r = rr
+						n++
+					}
+				}
+				if n != 1 {
+					r = nil
+				}
+			}
+		}
+		if r == nil {
+			ev.fail("visited() is only available in the contract of a loop that ranges over a map")
+		}
+		vis, ok := ev.st.heaps["rangevis:"+rangeID(r)]
+		if !ok {
+			ev.fail("visited(): the iteration has not started")
+		}
+		mt := r.X.Type().Underlying().(*types.Map)
+		k := ev.typed(ev.eval(x.Args[0]), mt.Key())
+		return Val{t: mkSelect(vis, ev.term(k)), typ: types.Typ[types.Bool]}
 	case "has":
 		// has(m, k): key k is present in map m
 		mv := ev.eval(x.Args[0])
